@@ -16,7 +16,7 @@ LEVEL = "proof"
 LEAN = ["SaVerif.Props.C37"]
 META = {
     "text": "Lean theorem for ALL mutation sequences on a one-to-many / many-to-one pair (any number of parents and children): the invariant `c in p.children <=> c.parent == p` with duplicate-free lists is preserved by every operation of the transcribed backref machinery — scalar set from the child side, append / remove / pop / __setitem__ / __delitem__ / clear and whole-collection replacement (bulk_replace) from the parent side — under the guard that no operation inserts a child twice into one list; the excluded case has a counterexample theorem replayed on the real code. Many-to-many and one-to-one pairs, slices, extend and the state after flush + reload are checked by the direct symmetry oracle on the real code.",
-    "note": "Hand transcription of _backref_listeners / list decorators / bulk_replace for loaded collections, tied by per-operation correspondence on both sides of the pair. Event tokens are modelled by their effect (which listener stops the recursion); unloaded collections (pending mutations), dynamic relationships, many-to-many and one-to-one are oracle-only. Known limitation reported as finding: a list collection holding the same child twice loses symmetry when the child is moved or popped.",
+    "note": "Hand transcription of _backref_listeners / list decorators / bulk_replace for loaded collections, tied by per-operation correspondence on both sides of the pair. Event tokens are modelled by their effect (which listener stops the recursion); dynamic relationships, many-to-many, one-to-one and unloaded collections (a change from the other side is queued as a pending mutation; rollback / expire / expire_all / refresh must drop it: both sides and the rows agree after the discard) are oracle-only. Known limitation reported as finding: a list collection holding the same child twice loses symmetry when the child is moved or popped.",
     "technique": "Lean 4 invariant proof over a transcribed state machine + per-operation differential correspondence with the real ORM + symmetry oracle incl. flush/reload on SQLite",
     "design_ref": "DESIGN.md §3 C37",
 }
@@ -450,6 +450,106 @@ class Runner:
         self.sess.close()
 
 
+# ---------------------------------------------------------------------------------------
+# unloaded collections: a change made from the OTHER side is queued as a pending mutation;
+# discarding the unit of work (rollback / expire / expire_all / refresh) must discard it too
+# ---------------------------------------------------------------------------------------
+def run_lazy_case(case):
+    """returns None or (key, detail)"""
+    import sqlalchemy as sa
+    from sqlalchemy import orm
+
+    E = env()
+    kind = case["kind"]
+    with E["eng"].begin() as c:
+        for t in reversed(E["Base"].metadata.sorted_tables):
+            c.execute(t.delete())
+    sess = orm.Session(E["eng"], autoflush=False)
+    try:
+        na, nb = case["na"], case["nb"]
+        A, B = {"o2m": ("BP", "BC"), "m2m": ("MA", "MB"), "o2m-set": ("SP", "SC")}[kind]
+        As = [E[A](id=i + 1) for i in range(na)]
+        Bs = [E[B](id=i + 1) for i in range(nb)]
+        sess.add_all(As + Bs)
+        for a, b in case["links"]:
+            if kind == "m2m":
+                As[a].bs.append(Bs[b])
+            elif kind == "o2m-set":
+                As[a].children.add(Bs[b])
+            else:
+                As[a].children.append(Bs[b])
+        sess.commit()  # everything expired: every collection is unloaded
+        coll = (lambda a: a.bs) if kind == "m2m" else (lambda a: a.children)
+        touched = set()
+        for op in case["ops"]:
+            k = op["op"]
+            if k == "sp":  # child.parent = p / None : queued on the unloaded parent collections
+                Bs[op["c"]].parent = None if op["p"] is None else As[op["p"]]
+            elif k == "rapp":  # b.as_.append(a): queued on the unloaded a.bs
+                if not any(x is As[op["a"]] for x in Bs[op["b"]].as_):
+                    Bs[op["b"]].as_.append(As[op["a"]])
+            elif k == "rrem":
+                if any(x is As[op["a"]] for x in Bs[op["b"]].as_):
+                    Bs[op["b"]].as_.remove(As[op["a"]])
+            elif k == "loadone":  # one owner's collection is loaded before the discard
+                coll(As[op["a"]])
+        d = case["discard"]
+        if d == "rollback":
+            sess.rollback()
+        elif d == "expire_all":
+            sess.expire_all()
+        elif d == "expire_each":
+            for o in As + Bs:
+                sess.expire(o)
+        elif d == "refresh_each":
+            for o in As + Bs:
+                sess.refresh(o)
+        elif d == "commit":
+            sess.commit()  # control: the change is kept and everything is reloaded
+        # the rows
+        c = sess.connection()
+        if kind == "m2m":
+            rows = {(r[0] - 1, r[1] - 1) for r in c.execute(sa.text("select a_id, b_id from c37_ab"))}
+        else:
+            t = E[B].__table__
+            rows = {(r[1] - 1, r[0] - 1) for r in c.execute(sa.select(t.c.id, t.c.parent_id)) if r[1] is not None}
+        for i, a in enumerate(As):
+            for j, b in enumerate(Bs):
+                left = any(x is b for x in coll(a))
+                right = any(x is a for x in b.as_) if kind == "m2m" else (b.parent is a)
+                inrow = (i, j) in rows
+                if left != right:
+                    return ("asymmetric-after-discard", "after %s: (b%d in a%d's collection) = %s but the other side says %s (row exists: %s)" % (d, j, i, left, right, inrow))
+                if left != inrow:
+                    return ("memory-ne-row-after-discard", "after %s: b%d in a%d's collection = %s, association row exists = %s" % (d, j, i, left, inrow))
+        return None
+    finally:
+        sess.rollback()
+        sess.close()
+
+
+def gen_lazy_case(rng):
+    kind = rng.choice(["o2m", "o2m", "m2m", "m2m", "o2m-set"])
+    na, nb = rng.choice([2, 3]), rng.choice([3, 4])
+    links = set()
+    for b in range(nb):
+        if kind == "m2m":
+            for a in rng.sample(range(na), rng.choice([0, 1, 1, 2])):
+                links.add((a, b))
+        elif rng.random() < 0.6:
+            links.add((rng.randrange(na), b))
+    ops = []
+    for _ in range(rng.randint(1, 4)):
+        if kind == "m2m":
+            ops.append({"op": rng.choice(["rapp", "rapp", "rrem"]), "a": rng.randrange(na), "b": rng.randrange(nb)})
+        else:
+            ops.append({"op": "sp", "c": rng.randrange(nb), "p": rng.choice([None] + list(range(na)))})
+        if rng.random() < 0.15:
+            ops.append({"op": "loadone", "a": rng.randrange(na)})
+    return {"lazy": True, "kind": kind, "na": na, "nb": nb, "links": sorted(links), "ops": ops,
+            "discard": rng.choice(["rollback", "rollback", "expire_all", "expire_each", "refresh_each", "commit"])}
+
+
 def rand_slice(rng, n):
     b = lambda: rng.choice([None, None, 0, 1, 2, n, n + 1, -1, -2])  # noqa: E731
     return [b(), b(), rng.choice([None, None, 1, 2, -1])]
@@ -685,6 +785,16 @@ def run(ctx, deep=False):
         run_one(ctx, gen_case(ctx.rng, "main", maxops), True, cases, impl_out, reqs)
     for _ in range(n // 5):
         run_one(ctx, gen_case(ctx.rng, "dupes", maxops), True, cases, impl_out, reqs)
+    for _ in range(n // 2):
+        case = gen_lazy_case(ctx.rng)
+        try:
+            bad = run_lazy_case(case)
+        except Exception as e:  # noqa: BLE001
+            bad = ("op-raised", "unloaded-collection case raised %s: %s" % (type(e).__name__, str(e)[:200]))
+        ctx.case(case, nontrivial=True)
+        ctx.count("stream=unloaded/%s/%s" % (case["kind"], case["discard"]))
+        if bad:
+            ctx.violation("c37:" + bad[0], case, bad[1])
     R = run_one(ctx, dict(WITNESS, stream="witness"), False, cases, impl_out, reqs)
     ctx.obligation("witness duplicate_move_counterexample reproduces on the real code", bool(R.violations), "Props.C37.duplicate_move_counterexample predicts an asymmetry; the real code did not show it")
     if ctx.driver_ok():
@@ -701,6 +811,10 @@ def search(ctx, broken):
 
 def replay(ctx, obj):
     case = obj["case"]
+    if case.get("lazy"):
+        bad = run_lazy_case(case)
+        print("replay C37 unloaded %s -> %s" % (json.dumps(case), bad))
+        return bad is not None
     R = replay_case(case)
     try:
         print("replay C37 %s" % json.dumps(case))
